@@ -410,3 +410,6 @@ def run(ctx):
     rule_compat(ctx)
     rule_tail(ctx)
     rule_rsv1(ctx)
+    # RSV1 marks the first frame of a compressed message only (RFC 7692 6.1): the fragmenting sender's frame roles
+    from .c01 import rule_fragment_loops
+    rule_fragment_loops(ctx, "C12.7-rsv1-on-first-fragment-only")
